@@ -3,8 +3,14 @@
 T: coq/Gen/GenCodec.v is regenerated on every run from the source under check (AST of
 baseDemultiplexMethods.py for the clamp expression / length limit / separators / name format, reflection on the
 imported package for the tag table, the fqSafe character class, string.ascii_letters and str.isspace) - fail closed.
+It also carries the CONTROL-FLOW TABLES of the codec (extract_tables): the header forms of _parse_illumina_header (which
+piece goes to which tag), the scmo / 3-DEC parsers, the decoder flags of fromTaggedBamRecord, the sample-name chain, the
+molecule / read-group recipes and the guards of QueryNameFlagger.digest; Model/C04x.v interprets them and Proofs/C04*.v
+prove the round trip for every table satisfying wf_codec / wf_form, which the generated tables do by computation.
 K: the real chain strategy.demultiplex -> str(TaggedRecord) (=asFastq) -> header line -> pysam.AlignedSegment ->
-QueryNameFlagger().digest -> get_tags() against the model, plus each codec function on its own.
+QueryNameFlagger().digest -> get_tags() against the model, plus each codec function on its own, raw headers with every
+number of fields / separator placement through TaggedRecord -> asFastq -> digest (no strategy), malformed query names,
+and the demultiplexer on its own headers.
 """
 import ast, hashlib, json, os, re, string as _string
 import fw, py2coq
@@ -131,17 +137,7 @@ def extract_ast(src):
     if not ok:
         raise Untranslatable('asFastq: return form: ' + ast.unparse(rv)[:120])
     out['fastq_prefix'] = [ord(c) for c in rv.values[0].value]
-    # ---- fromTaggedBamRecord: separators used by the decoder
-    fn = py2coq.find_function(tree, 'TaggedRecord.fromTaggedBamRecord')
-    item, kvs = set(), set()
-    for n in ast.walk(fn):
-        if isinstance(n, ast.Call) and isinstance(n.func, ast.Attribute) and n.func.attr == 'split':
-            if not n.args or not isinstance(n.args[0], ast.Constant) or not isinstance(n.args[0].value, str):
-                raise Untranslatable('fromTaggedBamRecord: split form ' + ast.unparse(n))
-            (kvs if ast.unparse(n.func.value) == 'keyValue' else item).add(n.args[0].value)
-    if len(item) != 1 or len(kvs) != 1 or len(list(item)[0]) != 1 or len(list(kvs)[0]) != 1:
-        raise Untranslatable('fromTaggedBamRecord: separators %r %r' % (item, kvs))
-    out['dec_item_sep'], out['dec_kv_sep'] = ord(list(item)[0]), ord(list(kvs)[0])
+    # (the separators of fromTaggedBamRecord come from the template of tagger_side, with role checks)
     # ---- asIlluminaHeader
     fn = py2coq.find_function(tree, 'TaggedRecord.asIlluminaHeader')
     body = [s for s in fn.body if not (isinstance(s, ast.Expr) and isinstance(s.value, ast.Constant))]
@@ -215,6 +211,502 @@ def scan_written_tags(repo):
     return sorted(enc), sorted(plain)
 
 
+# ============================================================================ T: the control-flow tables
+# Which piece of a header goes to which tag, in which order tags are derived, the separators / flags of the decoder, the
+# sample-name chain and the read-group recipe are extracted as DATA.  Every function is first compared with a template of
+# its normalised source (ast.unparse) in which the data are named groups and the ROLES are back-references (the name
+# that is unpacked is the name that is stored, the key variable is the first argument of addTagByTag, ...); anything
+# outside the template makes the extractor refuse (fail closed -> the pinned tables + K take over, fw.PropBase._run).
+TAGGER_SRC = 'singlecellmultiomics/universalBamTagger/universalBamTagger.py'
+
+Q = r"'(?:[^'\\]|\\.)*'"          # a python string literal as ast.unparse prints it
+
+
+def _lit(s):
+    return ast.literal_eval(s)
+
+
+def _fn_text(tree, qualname):
+    fn = py2coq.find_function(tree, qualname)
+    body = [s for s in fn.body if not (isinstance(s, ast.Expr) and isinstance(s.value, ast.Constant))]
+    fn2 = ast.FunctionDef(name=fn.name, args=fn.args, body=body or [ast.Pass()], decorator_list=[], returns=None,
+                          type_comment=None, lineno=0, col_offset=0)
+    try:
+        fn2.type_params = []
+    except Exception:
+        pass
+    return fn, ast.unparse(ast.fix_missing_locations(fn2))
+
+
+def _match(templ, text, what):
+    m = re.fullmatch(templ, text)
+    if not m:
+        raise Untranslatable('%s: source left the recognised shape:\n%s' % (what, text[:700]))
+    return m
+
+
+def _char(s, what):
+    v = _lit(s)
+    if not (isinstance(v, str) and len(v) == 1):
+        raise Untranslatable('%s: %r is not a single character' % (what, v))
+    return v
+
+
+def _tag(s, what):
+    v = _lit(s) if s[:1] in '\'"' else s
+    if not (isinstance(v, str) and len(v) == 2):
+        raise Untranslatable('%s: %r is not a 2-character tag' % (what, v))
+    return v
+
+
+# ---------------------------------------------------------------- _parse_illumina_header: the forms
+def _split_spec(call, hdr, regex_seps, what):
+    """the pieces expression of one form -> (deleted substring, separator characters)"""
+    def header_expr(x):
+        if isinstance(x, ast.Name) and x.id == hdr:
+            return None
+        if (isinstance(x, ast.Call) and isinstance(x.func, ast.Attribute) and x.func.attr == 'replace' and not x.keywords
+                and isinstance(x.func.value, ast.Name) and x.func.value.id == hdr and len(x.args) == 2
+                and all(isinstance(a, ast.Constant) and isinstance(a.value, str) for a in x.args)):
+            return (x.args[0].value, x.args[1].value)
+        raise Untranslatable('%s: split applied to %s' % (what, ast.unparse(x)))
+    if not (isinstance(call, ast.Call) and isinstance(call.func, ast.Attribute) and call.func.attr == 'split' and not call.keywords):
+        raise Untranslatable('%s: not a split: %s' % (what, ast.unparse(call)))
+    recv = call.func.value
+    if isinstance(recv, ast.Name) and recv.id == 'illuminaHeaderSplitRegex':
+        if len(call.args) != 1:
+            raise Untranslatable('%s: regex split arguments' % what)
+        seps, rep = list(regex_seps), header_expr(call.args[0])
+    else:
+        if len(call.args) != 1 or not (isinstance(call.args[0], ast.Constant) and isinstance(call.args[0].value, str)
+                                       and len(call.args[0].value) == 1):
+            raise Untranslatable('%s: split arguments %s' % (what, ast.unparse(call)))
+        seps, rep = [call.args[0].value], header_expr(recv)
+    dele = ''
+    if rep is not None:
+        old, new = rep
+        if new == '' and len(old) >= 1:
+            dele = old
+        elif len(old) == 1 and len(new) == 1 and new in seps:
+            if old not in seps:
+                seps.append(old)          # replace(a, sep).split(sep) = split on either character
+        else:
+            raise Untranslatable('%s: replace(%r, %r) before the split' % (what, old, new))
+    return dele, seps
+
+
+def illumina_forms(tree, regex_pattern):
+    fn = py2coq.find_function(tree, 'TaggedRecord._parse_illumina_header')
+    args = [a.arg for a in fn.args.args]
+    if len(args) != 4 or fn.args.vararg or fn.args.kwarg or fn.args.kwonlyargs:
+        raise Untranslatable('_parse_illumina_header: signature')
+    hdr, par, ali = args[1:]
+    if not re.fullmatch(r'.(\|.)*', regex_pattern):
+        raise Untranslatable('illuminaHeaderSplitRegex %r is not an alternation of single characters' % regex_pattern)
+    regex_seps = regex_pattern.split('|')
+    body = [s for s in fn.body if not (isinstance(s, ast.Expr) and isinstance(s.value, ast.Constant))]
+    if len(body) != 3 or not isinstance(body[0], ast.Try) or not isinstance(body[1], ast.Expr) or not isinstance(body[2], ast.If):
+        raise Untranslatable('_parse_illumina_header: body is not try / tags.update / if')
+    # ---- the dictionary handed to self.tags.update
+    up = body[1].value
+    if not (isinstance(up, ast.Call) and ast.unparse(up.func) == 'self.tags.update' and len(up.args) == 1 and not up.keywords
+            and isinstance(up.args[0], ast.Dict)):
+        raise Untranslatable('_parse_illumina_header: second statement is not self.tags.update({...})')
+    assign = []
+    for k, v in zip(up.args[0].keys, up.args[0].values):
+        if not (isinstance(k, ast.Constant) and isinstance(k.value, str) and len(k.value) == 2 and isinstance(v, ast.Name)):
+            raise Untranslatable('_parse_illumina_header: update entry %s' % ast.unparse(up.args[0]))
+        assign.append((k.value, v.id))
+    if len(set(k for k, v in assign)) != len(assign):
+        raise Untranslatable('_parse_illumina_header: a tag occurs twice in the update')
+    # ---- the index part
+    t = ast.unparse(body[2])
+    W = r'(\w+)'
+    m = _match(
+        r"if %s is not None and %s is not None:\n"
+        r"    try:\n"
+        r"        \w+ = int\((?P<idx>\w+)\)\n"
+        r"        (?P<id>\w+), (?P<co>\w+), (?P<hd>\w+) = \((?P=idx), (?P=idx), 0\)\n"
+        r"    except ValueError:\n"
+        r"        (?P=id), (?P=co), (?P=hd) = %s\.getIndexCorrectedBarcodeAndHammingDistance\(alias=%s, barcode=(?P=idx)\)\n"
+        r"    self\.tags\[(?P<raw>%s)\] = (?P=idx)\n"
+        r"    if (?P=co) is not None:\n"
+        r"        self\.tags\.update\(\{(?P<t1>%s): (?P<v1>\w+), (?P<t2>%s): (?P<v2>\w+)\}\)\n"
+        r"    else:\n"
+        r"        raise NonMultiplexable\(.*\)\n"
+        r"else:\n"
+        r"    self\.tags\[(?P<raw2>%s)\] = (?P=idx)" % (par, ali, par, ali, Q, Q, Q, Q), t, '_parse_illumina_header (index part)')
+    if m.group('raw') != m.group('raw2'):
+        raise Untranslatable('_parse_illumina_header: raw index stored under two tags')
+    role = {m.group('co'): 0, m.group('id'): 1}
+    if len(role) != 2 or m.group('v1') not in role or m.group('v2') not in role or m.group('v1') == m.group('v2'):
+        raise Untranslatable('_parse_illumina_header: index update uses %s, %s' % (m.group('v1'), m.group('v2')))
+    idxvar = m.group('idx')
+    index = {'raw': _tag(m.group('raw'), 'index tag'),
+             'found': [[_tag(m.group('t1'), 'index tag'), role[m.group('v1')]], [_tag(m.group('t2'), 'index tag'), role[m.group('v2')]]]}
+    # ---- the forms: nested try / except
+    forms, node = [], body[0]
+    while True:
+        if not isinstance(node, ast.Try) or node.orelse or node.finalbody or len(node.handlers) != 1:
+            raise Untranslatable('_parse_illumina_header: try form')
+        h = node.handlers[0]
+        if h.name is not None or (h.type is not None and ast.unparse(h.type) not in ('BaseException', 'Exception', 'ValueError')):
+            raise Untranslatable('_parse_illumina_header: handler %s' % ast.unparse(h))
+        st = node.body
+        if not (st and isinstance(st[0], ast.Assign) and len(st[0].targets) == 1 and isinstance(st[0].targets[0], ast.Tuple)
+                and all(isinstance(e, ast.Name) for e in st[0].targets[0].elts)):
+            raise Untranslatable('_parse_illumina_header: a form does not start with a tuple unpacking')
+        names = [e.id for e in st[0].targets[0].elts]
+        if len(set(names)) != len(names):
+            raise Untranslatable('_parse_illumina_header: a name is bound twice in one unpacking')
+        dele, seps = _split_spec(st[0].value, hdr, regex_seps, '_parse_illumina_header form %d' % (len(forms) + 1))
+        bound = {n: [0, i, ''] for i, n in enumerate(names)}
+        for s in st[1:]:
+            if not (isinstance(s, ast.Assign) and len(s.targets) == 1 and isinstance(s.targets[0], ast.Name)
+                    and isinstance(s.value, ast.Constant) and type(s.value.value) in (str, int)):
+                raise Untranslatable('_parse_illumina_header: statement after the unpacking: %s' % ast.unparse(s))
+            bound[s.targets[0].id] = [1, 0, s.value.value] if isinstance(s.value.value, str) else [2, s.value.value, '']
+        for k, v in assign:
+            if v not in bound:
+                raise Untranslatable('_parse_illumina_header: %s (tag %s) is not bound by form %d' % (v, k, len(forms) + 1))
+        if idxvar not in bound or bound[idxvar][0] == 2:
+            raise Untranslatable('_parse_illumina_header: index variable %s in form %d' % (idxvar, len(forms) + 1))
+        forms.append({'delete': dele, 'seps': seps, 'n': len(names), 'assign': [[k, bound[v]] for k, v in assign],
+                      'index': bound[idxvar]})
+        hb = h.body
+        if len(hb) == 1 and isinstance(hb[0], ast.Try):
+            node = hb[0]
+            continue
+        if len(hb) == 1 and isinstance(hb[0], ast.Raise) and hb[0].exc is None:
+            break
+        raise Untranslatable('_parse_illumina_header: handler body %s' % ast.unparse(h)[:200])
+    # parse_illumina_header must be the plain delegation
+    fn2, t2 = _fn_text(tree, 'TaggedRecord.parse_illumina_header')
+    _match(r"def parse_illumina_header\(self, (\w+), indexFileParser=None, indexFileAlias=None\):\n"
+           r"    return self\._parse_illumina_header\(\1\.header, indexFileParser=indexFileParser, indexFileAlias=indexFileAlias\)",
+           t2, 'parse_illumina_header')
+    return forms, index
+
+
+def dict_assign(text, what):
+    d = ast.parse(text, mode='eval').body
+    out = []
+    for k, v in zip(d.keys, d.values):
+        if not (isinstance(k, ast.Constant) and isinstance(k.value, str) and len(k.value) == 2 and isinstance(v, ast.Name)):
+            raise Untranslatable('%s: entry %s' % (what, ast.unparse(d)))
+        out.append((k.value, v.id))
+    if len(set(k for k, v in out)) != len(out):
+        raise Untranslatable('%s: a tag occurs twice' % what)
+    return out
+
+
+def raw_side(tree):
+    out = {}
+    # ---- fromRawFastq
+    fn, t = _fn_text(tree, 'TaggedRecord.fromRawFastq')
+    m = _match(r"def fromRawFastq\(self, (?P<r>\w+), (?P<p>\w+)=None, (?P<a>\w+)=None\):\n"
+               r"    try:\n"
+               r"        self\.parse_illumina_header\((?P=r), (?P=p), (?P=a)\)\n"
+               r"    except BaseException:\n"
+               r"        if (?P=r)\.header\.startswith\((?P<pre>%s)\):\n"
+               r"            self\.parse_scmo_header\((?P=r), (?P=p), (?P=a)\)\n"
+               r"        else:\n"
+               r"            self\.parse_3dec_header\((?P=r), (?P=p), (?P=a)\)" % Q, t, 'fromRawFastq')
+    out['scmo_prefix'] = _lit(m.group('pre'))
+    # ---- parse_scmo_header
+    fn, t = _fn_text(tree, 'TaggedRecord.parse_scmo_header')
+    m = _match(r"def parse_scmo_header\(self, (?P<r>\w+), \w+, \w+\):\n"
+               r"    self\.tags\.update\(dict\(\((?P<kv>\w+)\.split\((?P<kvs>%s)\) for (?P=kv) in (?P=r)\.header(?P<strip>\.strip\(\))?"
+               r"\[(?P<drop>\d+):\]\.split\((?P<is>%s)\)\)\)\)" % (Q, Q), t, 'parse_scmo_header')
+    out['scmo'] = {'strip': bool(m.group('strip')), 'drop': int(m.group('drop')), 'item_sep': _char(m.group('is'), 'scmo'),
+                   'kv_sep': _char(m.group('kvs'), 'scmo')}
+    # ---- parse_3dec_header
+    fn, t = _fn_text(tree, 'TaggedRecord.parse_3dec_header')
+    m = _match(r"def parse_3dec_header\(self, (?P<r>\w+), \w+, \w+\):\n"
+               r"(?P<defaults>(?:    \w+ = %s\n)*)"
+               r"    if (?P=r)\.header\.count\((?P<c>%s)\) == (?P<n>\d+):\n"
+               r"        (?P<names>\w+(?:, \w+)*) = (?P=r)\.header\.split\((?P<c2>%s)\)\n"
+               r"        assert (?P<chk>\w+) == (?P<val>%s)\n"
+               r"    else:\n"
+               r"        raise\n"
+               r"    self\.tags\.update\((?P<dict>\{.*\})\)" % (Q, Q, Q, Q), t, 'parse_3dec_header')
+    sep = _char(m.group('c'), '3dec')
+    names = m.group('names').split(', ')
+    if _char(m.group('c2'), '3dec') != sep or len(names) != int(m.group('n')) + 1 or len(set(names)) != len(names) \
+            or m.group('chk') not in names:
+        raise Untranslatable('parse_3dec_header: count / split / assert do not fit together')
+    bound = {}
+    for line in m.group('defaults').splitlines():
+        n, v = line.strip().split(' = ', 1)
+        bound[n] = [1, 0, _lit(v)]
+    for i, n in enumerate(names):
+        bound[n] = [0, i, '']
+    assign = dict_assign(m.group('dict'), 'parse_3dec_header')
+    for k, v in assign:
+        if v not in bound:
+            raise Untranslatable('parse_3dec_header: %s is not bound' % v)
+    out['threedec'] = {'sep': sep, 'nsep': int(m.group('n')), 'check': names.index(m.group('chk')), 'value': _lit(m.group('val')),
+                       'assign': [[k, bound[v]] for k, v in assign]}
+    return out
+
+
+def tagger_side(tree, tree_tagger):
+    out = {}
+    # ---- addTagByTag: what happens to a value stored with isPhred=False and the default arguments
+    fn, t = _fn_text(tree, 'TaggedRecord.addTagByTag')
+    m = _match(r"def addTagByTag\(self, (?P<k>\w+), (?P<v>\w+), isPhred=None, decodePhred=False, cast_type=str, make_safe=(?P<ms>True|False)\):\n"
+               r"    if isPhred is None:\n"
+               r"        isPhred = self\.tagDefinitions\[(?P=k)\]\.isPhred\n"
+               r"    if cast_type and \(not isinstance\((?P=v), cast_type\)\):\n"
+               r"        (?P=v) = cast_type\((?P=v)\)\n"
+               r"    if isPhred:\n"
+               r"        if decodePhred:\n"
+               r"            self\.tags\[(?P=k)\] = fastqHeaderSafeQualitiesToPhred\((?P=v), method=3\)\n"
+               r"        else:\n"
+               r"            self\.tags\[(?P=k)\] = phredToFastqHeaderSafeQualities\((?P=v), method=3\)\n"
+               r"    elif cast_type is str:\n"
+               r"        if make_safe:\n"
+               r"            self\.tags\[(?P=k)\] = fqSafe\((?P=v)\)\n"
+               r"        else:\n"
+               r"            self\.tags\[(?P=k)\] = (?P=v)\n"
+               r"    else:\n"
+               r"        self\.tags\[(?P=k)\] = (?P=v)", t, 'addTagByTag')
+    out['make_safe'] = m.group('ms') == 'True'
+    # ---- fromTaggedBamRecord
+    fn, t = _fn_text(tree, 'TaggedRecord.fromTaggedBamRecord')
+    loop = (r"for (?P<kv%(i)s>\w+) in %(it)s\.split\((?P<is%(i)s>" + Q + r")\):\n"
+            r"%(ind)s    (?P<k%(i)s>\w+), (?P<v%(i)s>\w+) = (?P=kv%(i)s)\.split\((?P<ks%(i)s>" + Q + r")(?:, (?P<mx%(i)s>-?\d+))?\)\n"
+            r"%(ind)s    self\.addTagByTag\((?P=k%(i)s), (?P=v%(i)s), isPhred=False\)")
+    m = _match(r"def fromTaggedBamRecord\(self, (?P<r>\w+)\):\n"
+               r"    try:\n"
+               r"        " + loop % {'i': '1', 'it': r"(?P=r)\.query_name(?P<s1>\.strip\(\))?", 'ind': '        '} + r"\n"
+               r"    except ValueError:\n"
+               r"        (?P<ih>\w+), (?P<at>\w+) = (?P=r)\.query_name(?P<s2>\.strip\(\))?\.split\((?P<is3>" + Q + r"), (?P<fmx>\d+)\)\n"
+               r"        self\._parse_illumina_header\((?P=ih), indexFileParser=None, indexFileAlias=None\)\n"
+               r"        " + loop % {'i': '2', 'it': r"(?P=at)", 'ind': '        '}, t, 'fromTaggedBamRecord')
+    isep = set(_char(m.group(g), 'fromTaggedBamRecord') for g in ('is1', 'is2', 'is3'))
+    ksep = set(_char(m.group(g), 'fromTaggedBamRecord') for g in ('ks1', 'ks2'))
+    if len(isep) != 1 or len(ksep) != 1 or m.group('mx1') != m.group('mx2') or bool(m.group('s1')) != bool(m.group('s2')) \
+            or m.group('ih') == m.group('at'):
+        raise Untranslatable('fromTaggedBamRecord: the two loops differ')
+    if int(m.group('fmx')) != 1:
+        raise Untranslatable('fromTaggedBamRecord: fallback split with maxsplit %s' % m.group('fmx'))
+    out['decoder'] = {'strip': bool(m.group('s1')), 'item_sep': isep.pop(), 'kv_sep': ksep.pop(),
+                      'kv_maxsplit': -1 if m.group('mx1') is None else int(m.group('mx1')), 'fallback_maxsplit': 1}
+    # ---- tagPysamRead
+    fn, t = _fn_text(tree, 'TaggedRecord.tagPysamRead')
+    FT = r"self\.tags\[(" + Q + r")\]"
+    sm_call = r"self\.addTagByTag\((?P<sm%(i)s>" + Q + r"), f'(?P<f%(i)s>[^\n]*)', isPhred=False\)"
+    m = _match(
+        r"def tagPysamRead\(self, (?P<rd>\w+)\):\n"
+        r"    (?P<mi>\w+) = ''\n"
+        r"    (?P<mq>\w+) = ''\n"
+        r"    (?P<tl>\w+) = \[.*\]\n"
+        r"    try:\n"
+        r"        (?P<qm>\w+) = False\n"
+        r"        for (?P<t>\w+), (?P<q>\w+), (?P<rq>\w+) in (?P=tl):\n"
+        r"            if self\.has_tag\((?P=t)\) and \(not self\.tags\.get\((?P=t)\) is None\):\n"
+        r"                (?P=mi) \+= self\.tags\[(?P=t)\]\n"
+        r"                if (?P=q) is None:\n"
+        r"                    (?P=mq) \+= (?P<pad>" + Q + r") \* len\(self\.tags\[(?P=t)\]\)\n"
+        r"                elif (?P=q) in self\.tags:\n"
+        r"                    (?P=mq) \+= self\.tags\[(?P=q)\]\n"
+        r"                elif (?P=q) == (?P<qt>" + Q + r"):\n"
+        r"                    (?P=qm) = True\n"
+        r"            if (?P=rq) and \(not self\.has_tag\((?P=t)\)\):\n"
+        r"                raise NonMultiplexable\(.*\)\n"
+        r"        (?P<ci>\w+) = None if not self\.has_tag\((?P<ca>" + Q + r")\) else self\.tags\[(?P=ca)\]\n"
+        r"        (?P<ri>\w+) = None if not self\.has_tag\((?P<ra>" + Q + r")\) else self\.tags\[(?P=ra)\]\n"
+        r"        if (?P=ci) is not None and (?P=ri) is not None:\n"
+        r"            (?P<hd>\w+) = hamming_distance\((?:(?P=ri), (?P=ci)|(?P=ci), (?P=ri))\)\n"
+        r"            if (?P=hd) is None:\n"
+        r"                raise ValueError\(.*\)\n"
+        r"            self\.addTagByTag\((?P<ah>" + Q + r"), (?P=hd), isPhred=False, cast_type=int\)\n"
+        r"        self\.addTagByTag\((?P<MI>" + Q + r"), (?P=mi), isPhred=False\)\n"
+        r"        if not (?P=qm):\n"
+        r"            self\.addTagByTag\((?P<QM>" + Q + r"), (?P=mq), isPhred=False\)\n"
+        r"    except NonMultiplexable:\n"
+        r"        self\.tags\[(?P<BK>" + Q + r")\] = True\n"
+        r"(?P<sm>    if .*\n(?:    (?:el|  )[^\n]*\n)*)"
+        r"    for (?P<wt>\w+), (?P<wv>\w+) in self\.tags\.items\(\):\n"
+        r"        if (?P=wt) in self\.tagDefinitions and self\.tagDefinitions\[(?P=wt)\]\.isPhred:\n"
+        r"            (?P=wv) = fastqHeaderSafeQualitiesToPhred\((?P=wv), method=3\)\n"
+        r"        (?P=rd)\.set_tag\((?P=wt), (?P=wv)\)\n"
+        r"    if not (?P=qm) and (?P=rd)\.has_tag\((?P<QM2>" + Q + r")\) and \(len\((?P=rd)\.get_tag\((?P=QM2)\)\) != len\((?P=rd)\.get_tag\((?P<MI2>" + Q + r")\)\)\):\n"
+        r"        raise ValueError\(.*\)", t, 'tagPysamRead')
+    if m.group('QM') != m.group('QM2') or m.group('MI') != m.group('MI2') or len(_lit(m.group('pad'))) != 1:
+        raise Untranslatable('tagPysamRead: molecule tags')
+    out['mol'] = {'mi': _tag(m.group('MI'), 'MI'), 'qm': _tag(m.group('QM'), 'QM'), 'bk': _tag(m.group('BK'), 'BK'),
+                  'pad': _lit(m.group('pad')), 'qt': _tag(m.group('qt'), 'QT')}
+    out['ah'] = {'tag': _tag(m.group('ah'), 'ah'), 'raw': _tag(m.group('ra'), 'aa'), 'corrected': _tag(m.group('ca'), 'aA')}
+    # the sample-name chain: the located if statement, branch by branch
+    smnode = ast.parse(''.join(l[4:] + '\n' for l in m.group('sm').splitlines())).body
+    if len(smnode) != 1 or not isinstance(smnode[0], ast.If):
+        raise Untranslatable('tagPysamRead: sample name chain')
+    recipes, node, smtag = [], smnode[0], set()
+    while node is not None:
+        mt = re.fullmatch(r"(%s) in self\.tags" % Q, ast.unparse(node.test))
+        if not mt:
+            raise Untranslatable('tagPysamRead: sample name test %s' % ast.unparse(node.test))
+        guard = _tag(mt.group(1), 'sample guard')
+        b = node.body
+        c = b[0].value if b and isinstance(b[0], ast.Expr) else None
+        if not (isinstance(c, ast.Call) and ast.unparse(c.func) == 'self.addTagByTag' and len(c.args) == 2
+                and isinstance(c.args[0], ast.Constant) and isinstance(c.args[1], ast.JoinedStr)
+                and [(k.arg, ast.unparse(k.value)) for k in c.keywords] == [('isPhred', 'False')]):
+            raise Untranslatable('tagPysamRead: sample name branch %s' % ast.unparse(node)[:200])
+        smtag.add(c.args[0].value)
+        parts = []
+        for v in c.args[1].values:
+            if isinstance(v, ast.Constant) and isinstance(v.value, str):
+                parts.append([1, v.value])
+            elif isinstance(v, ast.FormattedValue) and v.conversion == -1 and v.format_spec is None \
+                    and re.fullmatch(r"self\.tags\[%s\]" % Q, ast.unparse(v.value)):
+                parts.append([0, _tag(ast.unparse(v.value.slice), 'sample part')])
+            else:
+                raise Untranslatable('tagPysamRead: sample name part %s' % ast.unparse(v))
+        ren = ''
+        if len(b) == 3:
+            r1 = re.fullmatch(r"self\.tags\[(%s)\] = self\.tags\[(%s)\]" % (Q, Q), ast.unparse(b[1]))
+            r2 = re.fullmatch(r"del self\.tags\[(%s)\]" % Q, ast.unparse(b[2]))
+            if not (r1 and r2 and _lit(r1.group(2)) == guard and _lit(r2.group(1)) == guard):
+                raise Untranslatable('tagPysamRead: rename statements %s' % ast.unparse(node)[:200])
+            ren = _tag(r1.group(1), 'rename')
+        elif len(b) != 1:
+            raise Untranslatable('tagPysamRead: sample name branch has %d statements' % len(b))
+        recipes.append([guard, parts, ren])
+        if not node.orelse:
+            node = None
+        elif len(node.orelse) == 1 and isinstance(node.orelse[0], ast.If):
+            node = node.orelse[0]
+        else:
+            raise Untranslatable('tagPysamRead: sample name chain ends in an else')
+    if len(smtag) != 1:
+        raise Untranslatable('tagPysamRead: sample tag')
+    out['sm'] = {'tag': _tag(repr(smtag.pop()), 'SM'), 'recipes': recipes}
+    # ---- QueryNameFlagger.digest
+    fn, t = _fn_text(tree_tagger, 'QueryNameFlagger.digest')
+    B = r"singlecellmultiomics\.modularDemultiplexer\.baseDemultiplexMethods\."
+    m = _match(
+        r"def digest\(self, (?P<rs>\w+)\):\n"
+        r"    for (?P<r>\w+) in (?P=rs):\n"
+        r"        if (?P=r) is None:\n"
+        r"            continue\n"
+        r"        if (?P=r)\.has_tag\((?P<done>" + Q + r")\):\n"
+        r"            return\n"
+        r"        if (?P=r)\.query_name\.startswith\((?P<old>" + Q + r")\):\n"
+        r"            import tagBamFile\n"
+        r"            tagBamFile\.recodeRead\((?P=r)\)\n"
+        r"        else:\n"
+        r"            (?P<tr>\w+) = " + B + r"TaggedRecord\(" + B + r"TagDefinitions\)\n"
+        r"            (?P=tr)\.fromTaggedBamRecord\((?P=r)\)\n"
+        r"            (?P<nh>\w+) = (?P=tr)\.asIlluminaHeader\(\)\n"
+        r"            (?P=r)\.query_name = (?P=nh)\n"
+        r"            (?P=tr)\.tagPysamRead\((?P=r)\)\n"
+        r"            (?P<rg>\w+) = f'(?P<fmt>[^\n]*)'\n"
+        r"            self\.assignedReadGroups\.add\((?P=rg)\)\n"
+        r"            (?P=r)\.set_tag\((?P<RG>" + Q + r"), (?P=rg)\)", t, 'QueryNameFlagger.digest')
+    js = ast.parse("f'%s'" % m.group('fmt'), mode='eval').body
+    parts = []
+    r = m.group('r')
+    for v in js.values:
+        if isinstance(v, ast.Constant) and isinstance(v.value, str):
+            parts.append([1, v.value, ''])
+            continue
+        mm = isinstance(v, ast.FormattedValue) and v.conversion == -1 and v.format_spec is None and re.fullmatch(
+            r"%s\.get_tag\((%s)\) if %s\.has_tag\((%s)\) else (%s)" % (r, Q, r, Q, Q), ast.unparse(v.value))
+        if not mm or mm.group(1) != mm.group(2):
+            raise Untranslatable('digest: read group part %s' % ast.unparse(v))
+        parts.append([0, _tag(mm.group(1), 'read group part'), _lit(mm.group(3))])
+    out['digest'] = {'done': _tag(m.group('done'), 'done'), 'old_prefix': _lit(m.group('old')), 'rg_tag': _tag(m.group('RG'), 'RG'),
+                     'rg': parts}
+    return out
+
+
+def extract_tables(repo, regex_pattern):
+    """all control-flow tables of the codec, from the two source files of the tree under check"""
+    src = open(os.path.join(repo, SRC)).read()
+    src2 = open(os.path.join(repo, TAGGER_SRC)).read()
+    tree, tree2 = ast.parse(src), ast.parse(src2)
+    forms, index = illumina_forms(tree, regex_pattern)
+    tb = {'forms': forms, 'index': index}
+    tb.update(raw_side(tree))
+    tb.update(tagger_side(tree, tree2))
+    # cross checks between the tables (roles that span functions)
+    for rc in tb['sm']['recipes']:
+        for kind, v in rc[1]:
+            if kind == 0 and v == tb['mol']['bk']:
+                raise Untranslatable('tagPysamRead: the sample name formats the boolean tag %s' % v)
+        if rc[0] == tb['sm']['tag']:
+            raise Untranslatable('tagPysamRead: the sample tag guards its own recipe')
+    if tb['digest']['done'] != tb['sm']['tag']:
+        raise Untranslatable('digest: the already-tagged test looks at %s, tagPysamRead writes the sample to %s'
+                             % (tb['digest']['done'], tb['sm']['tag']))
+    tb['sha256_tagger'] = hashlib.sha256(src2.encode()).hexdigest()
+    return tb
+
+
+def _src(x):
+    kind, n, s = x
+    return '(%d, (%d, %s))' % (kind, n, zstr(s))
+
+
+def _assign(a):
+    return '[' + '; '.join('(%s, %s)' % (zstr(k), _src(v)) for k, v in a) + ']'
+
+
+def _bool(b):
+    return 'true' if b else 'false'
+
+
+def tables_chunks(tb):
+    ch = []
+    ch.append('(* ---- control-flow tables (tools/c04.py extract_tables; %s sha256 %s) ---- *)\n'
+              '(* _parse_illumina_header: the forms in the order they are tried:\n'
+              '   (deleted substring, (separator characters, (number of pieces, (assignments tag <- source, index source))));\n'
+              '   source = (0, (i, [])) the i-th piece | (1, (0, s)) the string s | (2, (z, [])) the python int z *)\n'
+              'Definition illumina_forms : list (list Z * (list Z * (Z * (list (list Z * (Z * (Z * list Z))) * (Z * (Z * list Z)))))) := [\n  %s].'
+              % (TAGGER_SRC, tb['sha256_tagger'],
+                 ';\n  '.join('(%s, (%s, (%d, (%s, %s))))' % (zstr(f['delete']), zstr(''.join(f['seps'])), f['n'], _assign(f['assign']),
+                                                             _src(f['index'])) for f in tb['forms'])))
+    ch.append('(* the tag that receives the index as written; (tag, 0 = corrected index | 1 = index identifier) when the index is known *)\n'
+              'Definition index_raw_tag : list Z := %s.\nDefinition index_found_tags : list (list Z * Z) := [%s].'
+              % (zstr(tb['index']['raw']), '; '.join('(%s, %d)' % (zstr(t), r) for t, r in tb['index']['found'])))
+    sc = tb['scmo']
+    ch.append('(* fromRawFastq / parse_scmo_header: prefix test; (strip, (characters dropped, (item separator, key/value separator))) *)\n'
+              'Definition scmo_prefix : list Z := %s.\nDefinition scmo_parse : bool * (Z * (Z * Z)) := (%s, (%d, (%d, %d))).'
+              % (zstr(tb['scmo_prefix']), _bool(sc['strip']), sc['drop'], ord(sc['item_sep']), ord(sc['kv_sep'])))
+    td = tb['threedec']
+    ch.append('(* parse_3dec_header: ((separator, (number of separators, (checked piece, its required value))), assignments) *)\n'
+              'Definition threedec_form : (Z * (Z * (Z * list Z))) * list (list Z * (Z * (Z * list Z))) :=\n  ((%d, (%d, (%d, %s))), %s).'
+              % (ord(td['sep']), td['nsep'], td['check'], zstr(td['value']), _assign(td['assign'])))
+    d = tb['decoder']
+    ch.append('(* fromTaggedBamRecord: query name stripped; maxsplit of keyValue.split (-1 = none); maxsplit of the fallback split;\n'
+              '   addTagByTag(key, value, isPhred=False) stores fqSafe(value) *)\n'
+              'Definition dec_strip : bool := %s.\nDefinition dec_kv_maxsplit : Z := %d.\nDefinition dec_fallback_maxsplit : Z := %d.\n'
+              'Definition dec_make_safe : bool := %s.' % (_bool(d['strip']), d['kv_maxsplit'], d['fallback_maxsplit'], _bool(tb['make_safe'])))
+    m = tb['mol']
+    ch.append('(* tagPysamRead: padding character, the quality tag whose absence suppresses QM, the tags written *)\n'
+              'Definition mol_pad : Z := %d.\nDefinition mol_qt_tag : list Z := %s.\nDefinition mi_tag : list Z := %s.\n'
+              'Definition qm_tag : list Z := %s.\nDefinition bk_tag : list Z := %s.'
+              % (ord(m['pad']), zstr(m['qt']), zstr(m['mi']), zstr(m['qm']), zstr(m['bk'])))
+    a = tb['ah']
+    ch.append('(* (hamming distance tag, (raw index tag, corrected index tag)) *)\n'
+              'Definition ah_recipe : list Z * (list Z * list Z) := (%s, (%s, %s)).' % (zstr(a['tag']), zstr(a['raw']), zstr(a['corrected'])))
+    ch.append('(* the sample name chain: (guard tag, (f-string parts (0, tag) | (1, literal), tag the guard tag is renamed to or [])) *)\n'
+              'Definition sm_tag : list Z := %s.\nDefinition sm_recipes : list (list Z * (list (Z * list Z) * list Z)) := [\n  %s].'
+              % (zstr(tb['sm']['tag']), ';\n  '.join('(%s, ([%s], %s))' % (zstr(g), '; '.join('(%d, %s)' % (k, zstr(v)) for k, v in parts), zstr(ren))
+                                                        for g, parts, ren in tb['sm']['recipes'])))
+    g = tb['digest']
+    ch.append('(* QueryNameFlagger.digest: tag that marks a read as done, prefix of the old name format, read group tag and\n'
+              '   f-string: (0, (tag, default)) | (1, (literal, [])) *)\n'
+              'Definition digest_done_tag : list Z := %s.\nDefinition digest_old_prefix : list Z := %s.\nDefinition rg_tag : list Z := %s.\n'
+              'Definition rg_recipe : list (Z * (list Z * list Z)) := [%s].'
+              % (zstr(g['done']), zstr(g['old_prefix']), zstr(g['rg_tag']),
+                 '; '.join('(%d, (%s, %s))' % (k, zstr(x), zstr(y)) for k, x, y in g['rg'])))
+    return ch
+
+
 def zlist(l):
     return '[' + '; '.join(str(int(x)) for x in l) + ']'
 
@@ -228,10 +720,10 @@ def regen_codec():
     src = open(path).read()
     a = extract_ast(src)
     r = fw.run_impl('impl_c04.py', {'op': 'reflect'})
+    tb = extract_tables(fw.REPO, r['illumina_split_pattern'])
+    a['dec_item_sep'], a['dec_kv_sep'] = ord(tb['decoder']['item_sep']), ord(tb['decoder']['kv_sep'])
     if os.path.realpath(r['module_file']) != os.path.realpath(path):
         raise Untranslatable('reflection imported %s, not %s' % (r['module_file'], path))
-    if r['illumina_split_pattern'] != ':| ':
-        raise Untranslatable('illuminaHeaderSplitRegex changed: %r' % r['illumina_split_pattern'])
     for t in r['tags']:
         if len(t[0]) != 2:
             raise Untranslatable('tag %r' % t)
@@ -261,6 +753,7 @@ def regen_codec():
               'Definition tag_table : list (list Z * (bool * bool)) := [\n  %s].'
               % ';\n  '.join('(%s, (%s, %s))' % (zstr(t[0]), 'true' if t[1] else 'false', 'true' if t[2] else 'false')
                              for t in r['tags']))
+    ch += tables_chunks(tb)
     enc_tags, plain_tags = scan_written_tags(fw.REPO)
     ch.append('(* tags the demultiplexer modules write phred-encoded / plainly (AST scan of modularDemultiplexer) *)\n'
               'Definition encoded_tags : list (list Z) := [%s].\nDefinition plain_tags : list (list Z) := [%s].'
@@ -276,7 +769,11 @@ def regen_codec():
     meta = {'source': SRC, 'sha256': sha, 'coq': 'Gen/GenCodec.v',
             'constants': {k: a[k] for k in ('enc_lo', 'enc_off', 'enc_hi', 'dec_off', 'header_limit', 'enc_item_sep',
                                             'enc_kv_sep', 'dec_item_sep', 'dec_kv_sep', 'name_keys', 'mol_tags')},
-            'tags': len(r['tags']), 'fqsafe_ranges': r['fqsafe_ranges'], 'encoded_tags': enc_tags, 'plain_tags': plain_tags}
+            'tags': len(r['tags']), 'fqsafe_ranges': r['fqsafe_ranges'], 'encoded_tags': enc_tags, 'plain_tags': plain_tags,
+            'tables': {k: tb[k] for k in ('forms', 'index', 'scmo_prefix', 'scmo', 'threedec', 'decoder', 'make_safe', 'mol', 'ah',
+                                          'sm', 'digest')},
+            'sha256_tagger': tb['sha256_tagger']}
+    a['tables'] = tb
     return [meta], a, r
 
 
@@ -331,24 +828,71 @@ def opt_in(s):
     return [] if s is None else [S(s)]
 
 
+def py_coords_of(h, spaces=None):
+    """direct transcription of Model/C04.v coords_of: the coordinates of a header that has an Illumina shape, else None"""
+    sp = spaces if spaces is not None else PY_SPACES
+    def field_ok(f):
+        return len(f) > 0 and all(ch in SAFE for ch in f)
+    def sepfree(v):
+        return not any(ch in ';:' or ch in sp for ch in v)
+    if not h.startswith('@'):
+        return None
+    r = h[1:]
+    c, t = (r.split(' ', 1) + [None])[:2] if ' ' in r else (r, None)
+    fs = c.split(':')
+    if len(fs) != 7 or not all(field_ok(f) for f in fs):
+        return None
+    if t is not None:
+        ps = t.split(':')
+        if len(ps) == 3:
+            ok = all(field_ok(x) for x in ps)
+        elif len(ps) == 4:
+            ok = all(field_ok(x) for x in ps[:3]) and sepfree(ps[3])
+        elif len(ps) == 5:
+            ok = all(field_ok(x) for x in ps[:3]) and ps[3] == '' and ps[4] == ''
+        else:
+            ok = False
+        if not ok:
+            return None
+    return c
+
+
+PY_SPACES = ''.join(chr(c) for c in range(0x110000) if chr(c).isspace())
+
+
 class Prop(fw.PropBase):
     ID = 'C04'
     PROPS = 'Props/C04.v'
     TRUSTED = [
-        'tools/c04.py regen_codec: AST pattern extraction (clamp expression, length test, separators, name format, '
-        'molecule-identifier recipe) and reflection (tag table, fqSafe class, ascii_letters, str.isspace); fails closed '
-        'when the source leaves the recognised shape',
-        'modelled not verified: the control flow of the header parsers / fromTaggedBamRecord / tagPysamRead / digest is '
-        'hand-transcribed into Gallina (Model/C04.v) and tied by K only; python str.split/join/strip/format semantics; '
-        'the aligner copying the FASTQ name (minus "@") into the BAM query name; pysam set_tag/get_tags typing '
+        'tools/c04.py regen_codec / extract_tables: AST pattern extraction (clamp expression, length test, separators, name '
+        'format, molecule-identifier recipe) and reflection (tag table, fqSafe class, ascii_letters, str.isspace), plus the '
+        'CONTROL-FLOW TABLES: per header form of _parse_illumina_header the deleted substring / separator set / number of '
+        'pieces / which piece or constant goes to which tag / index source, the index tags, fromRawFastq prefix test, scmo and '
+        '3-DEC parsers, the flags of fromTaggedBamRecord (strip, maxsplit, fqSafe on store, fallback split), ah / MI / QM / BK '
+        'tags and padding, the sample-name chain, the read-group recipe, the guards of digest.  Each function is matched '
+        'against a template of its normalised source in which the data are named groups and the roles are back-references; '
+        'it fails closed when the source leaves the recognised shape (then the pinned tables + K with extra passes take over)',
+        'modelled not verified: the INTERPRETERS of these tables (Model/C04x.v: split at a character set, str.replace(x, ""), '
+        'dict.update order, the try/except nesting as "first form whose unpacking succeeds", the if/elif chain as "first recipe '
+        'whose guard is present", f-string evaluation) are hand-written Gallina tied by K; python str.split/join/strip/format '
+        'semantics; the aligner copying the FASTQ name (minus "@") into the BAM query name; pysam set_tag/get_tags typing '
         '(str -> Z, int/bool -> integer); BAM query-name capacity 254 (pysam 0.24.1 / htslib) is a stated constant',
         'index-sequence lookup and the int() test of _parse_illumina_header are an oracle input of the model (C03); '
         'which tags a strategy adds is input (C02): the theorems quantify over every tag store',
+        'search() evaluates python transcriptions of the statements (coords_of is cross-checked against the Coq specb, '
+        'run_C04 mode 2/3, on every query name of every run)',
     ]
     ASSUMPTIONS = [
         'tag values contain no ";" ":" or whitespace (they may contain other unsafe characters, which the decoder '
-        'deletes: decoded value = fqSafe(value)); values over the header-safe alphabet [A-Za-z0-9_-] come back unchanged',
-        'the "+" of dual sequencing indices is outside the header-safe alphabet and is deleted on decode (D7, reported)',
+        'deletes: decoded value = fqSafe(value)); values over the header-safe alphabet [A-Za-z0-9_-] come back unchanged, and '
+        'ONLY those do (C04_field_exact_iff)',
+        'the "+" of dual sequencing indices is outside the header-safe alphabet and is deleted on decode (D7, '
+        'C04_dual_index_refuted: the coordinates come back, aa comes back without its "+")',
+        'the coordinates clause is for headers of an Illumina SHAPE (coords_of: "@" + 7 non-empty header-safe fields joined by '
+        '":", then nothing | " RP:Fi:CN" | " RP:Fi:CN::" | " RP:Fi:CN:index"); the parser itself accepts by counting separators '
+        '(C04_header_accept_iff), so other headers with 10 / 9 / 6 separators are accepted and assigned by position '
+        '(C04_accepted_by_count_refuted, C04_comment_in_coordinate_refuted, C04_short_header_misassigned_refuted), all others '
+        'are refused with ValueError (C04_malformed_header_raises)',
         'the tag store is a python dict (unique keys) whose keys are defined in tags/tags.py',
     ]
 
@@ -430,6 +974,74 @@ class Prop(fw.PropBase):
                           'library': rng.choice([None, 'LIB', self.rstr(SAFE, 1, 30), '', self.rstr(SAFE, 1, 1)]),
                           'reason': rng.choice([None, None, 'bc_not_matching'])})
         return cases
+
+    def gen_header_forms(self):
+        """headers with fewer / more fields than any form expects, blanks and '::' in every position, 3-DEC and scmo
+        look-alikes, dual indices: raw header -> TaggedRecord -> asFastq -> digest without a strategy"""
+        rng = self.rng
+        toks = ['NS500414', '628', 'H7YVNBGXC', '1', '11101', '15963', '1046', '1', 'N', '0', 'GTGAAA', 'x', 'y', 'z']
+        hs = []
+        for n in range(1, 14):                         # n fields, the blank at every position (or nowhere)
+            for p in [None] + list(range(1, n)):
+                seps = [':'] * (n - 1)
+                if p is not None:
+                    seps[p - 1] = ' '
+                h = '@' + ''.join(t + x for t, x in zip(toks[:n], seps + ['']))
+                hs.append(h)
+                if p in (None, 7):
+                    hs += [h + '::', h + ':', h + ' extra', h + ':ACGT+TTGA']
+        base = '@' + ':'.join(toks[:7])
+        for i in range(1, 7):                          # "::" / an empty field / a doubled blank inside the coordinates
+            f = toks[:7]
+            hs.append('@' + ':'.join(f[:i]) + '::' + ':'.join(f[i:]) + ' 1:N:0')
+            hs.append('@' + ':'.join(f[:i] + [''] + f[i:]) + ' 1:N:0:GTGAAA')
+            hs.append('@' + ':'.join(f[:i]) + ' ' + ':'.join(f[i:]) + ' 1:N:0:GTGAAA')
+        for idx in ('ACGT+TTGA', 'GTGAAA+GTGAAA', '+', 'AC+', 'N', '', '12', '007', 'GTG.AA', 'GTGAAA ', 'GT;GA'):
+            hs.append(base + ' 1:N:0:' + idx)
+        for k in range(2, 7):                          # 3-DEC look-alikes: k underscores, the 's' in or out of place
+            hs.append('@Cluster' + ''.join('_%s' % t for t in (['s', '1', '1101', '2', 'x', 'y'][:k])))
+            hs.append('@Cluster' + ''.join('_%s' % t for t in (['x', '1', '1101', '2', 'x', 'y'][:k])))
+        hs += ['@Is:a;RN:b', '@Is:a;RN', '@Is:a;RN:b:c', '@Is', '@Is:', '@Is:a;;RN:b', ' @Is:a;RN:b ', '@Isx_s_1_2_3', '@', '',
+               '@SRR001666.1 071112_SLXA-EAS1_s_7:5:1:817:345 length=36', '@HWUSI-EAS100R:6:73:941:1973#0/1',
+               base + ' 1:N:0:GTGAAA extra', base + '  1:N:0:GTGAAA', base + ' 1:N:0::', base + ' 1:N:0:::', base + '::',
+               '@NS500414:628:H7YVNBGXC:1:11101:15963 1:N:0:ACGT']
+        for _ in range(40 if self.tier == 'quick' else 3000):      # random field counts and separator strings
+            n = rng.randint(1, 13)
+            h = '@'
+            for i in range(n):
+                h += self.rstr(SAFE + ('+.' if rng.random() < 0.1 else ''), 0 if rng.random() < 0.05 else 1, 6)
+                if i < n - 1:
+                    h += rng.choice([':', ':', ':', ':', ' ', '::', '_', ': '])
+            hs.append(h + rng.choice(['', '', '', '::', ':', ' ']))
+        cases, seen = [], set()
+        for h in hs:
+            for parser in (False, True):
+                if (h, parser) not in seen:
+                    seen.add((h, parser))
+                    cases.append({'f': 'rawchain', 'header': h, 'parser': parser, 'library': rng.choice(['LIB', 'L-1_x', 'LIB'])})
+        return cases
+
+    def gen_malformed_names(self):
+        """query names with an item that is not key:value at every position, and Illumina-like first items of every length"""
+        base = 'Is:NS500414;RN:628;Fc:H7YVNBGXC;La:1;Ti:11101;CX:15963;CY:1046;Fi:N;CN:0;aa:GTGAAA;aA:GTGAAA;aI:19;LY:LIB;' \
+               'RX:ATC;RQ:GGG;bi:1;bc:ACACACTA;MX:NLAIII384C8U3;BC:ACACACTA'
+        items = base.split(';')
+        names = []
+        for i in range(len(items)):
+            for mut in (lambda x: x.replace(':', ''), lambda x: x + ':z', lambda x: '', lambda x: x + ';', lambda x: ':' + x,
+                        lambda x: x.split(':')[0] + ':'):
+                it = list(items)
+                it[i] = mut(it[i])
+                names.append(';'.join(it))
+        toks = ['NB500', '530', 'HXX', '2', '2', '17', '6', '1', 'N', '0', 'ACGT', 'x', 'y']
+        for n in range(1, 14):
+            for sp in (None, 7):
+                seps = [':'] * (n - 1)
+                if sp is not None and sp <= n - 1:
+                    seps[sp - 1] = ' '
+                ih = ''.join(t + x for t, x in zip(toks[:n], seps + ['']))
+                names += [ih + ';BC:GTCATTAG;RX:CTGAAC;LY:L;bi:3', ih + ';BC:GTCATTAG;broken', ih]
+        return [{'f': 'digest', 'reads': [[n[:254] if n.strip() else 'x', []]]} for n in names]
 
     def gen_encode(self):
         """synthetic tag stores: keys from the tag table (sometimes undefined), values over several alphabets,
@@ -654,9 +1266,14 @@ class Prop(fw.PropBase):
         cases += [{'f': 'phred_dec', 's': s} for s in dec]
         cases += [{'f': 'fqsafe', 's': s} for s in self.gen_fqsafe()]
         cases += self.gen_raw()
+        cases += self.gen_header_forms()
         cases += self.gen_encode()
         cases += self.gen_chain()
         return cases
+
+    def done_tag(self):
+        """the tag whose presence makes digest return (regenerated: digest_done_tag); 'SM' when the translator refused"""
+        return ((getattr(self, 'ast_consts', None) or {}).get('tables') or {}).get('digest', {}).get('done', 'SM')
 
     def model_inputs(self, cases, impl):
         """one model query per case (list of (case index, mode-0 input, kind))"""
@@ -675,12 +1292,18 @@ class Prop(fw.PropBase):
                 orc = impl[i].get('oracle') if c.get('parser') else None
                 q.append((i, [5, S(c['header']), oracle_in(orc) if c.get('parser') else [], opt_in(c.get('library')),
                               opt_in(c.get('reason'))], f))
+            elif f == 'rawchain':
+                if 'skip' in impl[i]:
+                    continue
+                orc = impl[i].get('oracle') if c.get('parser') else None
+                q.append((i, [11, S(c['header']), oracle_in(orc) if c.get('parser') else [], opt_in(c.get('library'))], f))
+                q.append((i, [10, S(c['header'])], 'form'))
             elif f == 'digest':
-                q.append((i, [9, [([] if r is None else [S(r[0]), 1 if any(k == 'SM' for k, v in r[1]) else 0])
+                q.append((i, [9, [([] if r is None else [S(r[0]), 1 if any(k == self.done_tag() for k, v in r[1]) else 0])
                                   for r in c['reads']]], f))
             elif f == 'history':
                 for j, call in enumerate(c['calls']):
-                    q.append((i, [9, [([] if r is None else [S(r[0]), 1 if any(k == 'SM' for k, v in r[1]) else 0])
+                    q.append((i, [9, [([] if r is None else [S(r[0]), 1 if any(k == self.done_tag() for k, v in r[1]) else 0])
                                       for r in call]], 'call:%d' % j))
             elif f == 'chain':
                 r = impl[i]
@@ -705,6 +1328,11 @@ class Prop(fw.PropBase):
         elif f == 'raw':
             a = ('err', err_class(impl['error'])) if 'error' in impl else ('ok', [[k, v] for k, t, v in impl['store']])
             b = m_res(mv, lambda st: [[U(k), U(v)] for k, v in st])
+        elif f == 'rawchain':
+            if kind == 'form':
+                return None
+            a = ('err', err_class(impl['error'])) if 'error' in impl else ('ok', impl['read'])
+            b = m_res(mv, m_read)
         elif f in ('digest', 'history'):
             if 'error' in impl:
                 return 'harness error %s' % impl['error']
@@ -753,7 +1381,16 @@ class Prop(fw.PropBase):
         # second stage: the tagger on the real demultiplexed headers and on mutations of them
         real_headers = sorted(set(h['header'] for c, r in zip(cases, impl) if c['f'] == 'chain' and 'headers' in r
                                   for h in r['headers'] if 'header' in h))
-        dcases = self.gen_digest(real_headers) + self.gen_history(real_headers)
+        # ... and the demultiplexer on its own headers (a demultiplexed FASTQ demultiplexed again): the records built from
+        # raw headers (with and without library / index tags: 10, 11, 13 written items) and the real strategy headers
+        own = sorted(set(r['header'] for c, r in zip(cases, impl) if c['f'] == 'rawchain' and 'header' in r))
+        bare = [{'f': 'rawchain', 'header': h, 'parser': p_, 'library': None} for h in self.HEADERS[:8] for p_ in (False, True)]
+        bimpl = fw.run_impl('impl_c04.py', {'op': 'batch', 'cases': bare})
+        own += sorted(set(r['header'] for r in bimpl if 'header' in r))
+        self.rng.shuffle(own)
+        recases = [{'f': 'raw', 'header': '@' + h, 'parser': self.rng.random() < 0.5, 'library': self.rng.choice([None, 'LIB2']),
+                    'reason': None} for h in own[:80 if self.tier == 'quick' else 2000] + real_headers[:40 if self.tier == 'quick' else 1000]]
+        dcases = bare + recases + self.gen_digest(real_headers) + self.gen_malformed_names() + self.gen_history(real_headers)
         dimpl = fw.run_impl('impl_c04.py', {'op': 'batch', 'cases': dcases})
         cases, impl = cases + dcases, impl + dimpl
         self.cases, self.impl = cases, impl
@@ -812,6 +1449,17 @@ class Prop(fw.PropBase):
                 continue
             mv = next(it0)
             pairs.append((inp, mv))
+            if kind == 'form':        # which form of the regenerated table takes the header (evidence only)
+                fk = 'form %d' % (mv[0] + 1) if mv else 'no form'
+                r = impl[i]
+                oc = 'tagged' if 'read' in r else ('raises %s at %s' % (err_class(r['error']), r.get('stage')) if 'error' in r else 'skipped')
+                np_ = len(re.split('[: ]', c['header']))
+                hf = self.cov.setdefault('header_forms_hist', {})
+                key = '%s / %s' % (fk, oc)
+                hf[key] = hf.get(key, 0) + 1
+                pc = self.cov.setdefault('header_pieces_hist', {})
+                pc[str(np_)] = pc.get(str(np_), 0) + 1
+                continue
             d = self.compare(c, kind, impl[i], mv)
             validated += 1
             if d is not None:
@@ -833,6 +1481,29 @@ class Prop(fw.PropBase):
             self.dis = dis
             raise fw.Broken('correspondence', 'model and implementation disagree on %d cases; first: %s'
                             % (len(dis), json.dumps(dis[0])[:1200]))
+        # the coordinates clause (Props C04_coordinates_restored: specb = run_C04 mode 2, its precondition = mode 3)
+        # evaluated on the IMPLEMENTATION's query names against the ORIGINAL headers; the python transcription used by
+        # search() is cross-checked against the Coq specb on every one of them
+        sp = []
+        for c, r in zip(cases, impl):
+            if c['f'] == 'rawchain' and 'read' in r:
+                sp.append((c, c['header'], r['read']['name']))
+            if c['f'] == 'chain' and isinstance(r.get('reads'), list):
+                for j, rd in enumerate(r['reads']):
+                    if j < len(c['records']):
+                        sp.append((c, c['records'][j][0], rd['name']))
+        pre = fw.run_model('C04', 3, [[S(h)] for c, h, n in sp])
+        okb = fw.run_model('C04', 2, [[S(h), S(n)] for c, h, n in sp])
+        twf = fw.run_model('C04', 3, [[]])[0]
+        self.cov['specification_coordinates'] = {'query_names_evaluated': len(sp), 'precondition_hits(header has an Illumina shape)': sum(pre),
+                                                 'violations': sum(1 for x in okb if not x), 'generated_tables_wf': bool(twf)}
+        for (c, h, n), p_, o_ in zip(sp, pre, okb):
+            pc = py_coords_of(h)
+            if (pc is not None) != bool(p_) or (pc is None or pc == n) != bool(o_):
+                raise fw.Broken('harness', 'python transcription of coords_of disagrees with the Coq specb on %r' % h)
+            if not o_:
+                raise fw.Broken('specification', 'header %r: query name after demultiplex -> digest is %r, the coordinates are %r'
+                                % (h, n, pc))
         # the statement of C04_end_to_end evaluated on the real chain against the ORIGINAL input reads
         tagdef = {t[0]: (t[1], t[2]) for t in self.reflected['tags']}
         nspec, orig_rq, corrected = 0, 0, 0
@@ -866,6 +1537,8 @@ class Prop(fw.PropBase):
             return 'out' in impl and impl['out'] != c['s']
         if f == 'raw':
             return 'store' in impl
+        if f == 'rawchain':
+            return True
         if f == 'encode':
             return len(c['store']) >= 3
         if f == 'chain':
@@ -956,6 +1629,15 @@ class Prop(fw.PropBase):
                 W.append({'key': 'encode:error', 'what': 'asFastq raises %s on a well-formed tag store' % r['error'],
                           'input': c['store'], 'impl': r['error'], 'expected': exp})
                 break
+        # ---- header forms (python transcription of C04_coordinates_parse / _restored, C04_header_accept_iff,
+        #      C04_malformed_header_raises), on the implementation's own outputs
+        for c, r in zip(self.cases, self.impl):
+            if c['f'] not in ('rawchain', 'raw') or 'skip' in r:
+                continue
+            w = self.header_violation(c, r)
+            if w:
+                W.append(w)
+                break
         # ---- statelessness: on one flagger every read is tagged exactly as it is tagged on its own
         if not any(c['f'] == 'history' for c in self.cases):
             hc = self.gen_history([])
@@ -977,6 +1659,43 @@ class Prop(fw.PropBase):
             if w:
                 W.append(w)
                 break
+
+    def header_violation(self, c, r):
+        """the statement about raw headers: an Illumina-shaped header is accepted (at most NonMultiplexable for an unknown
+        index), its seven coordinates reach Is..CY, the index as written reaches aa, the restored query name is the text
+        between '@' and the first blank; a header of none of the forms (by separator count), not scmo, not 3-DEC, is
+        refused with ValueError when the record is built"""
+        h = c['header']
+        co = py_coords_of(h)
+        what = None
+        if co is not None:
+            fs = co.split(':')
+            if 'error' in r and r.get('stage', 'record') == 'record':
+                if err_class(r['error']) != 'NonMultiplexable' or not c.get('parser'):
+                    what = ('header', 'refused: ' + r['error'], 'accepted')
+            elif 'store' in r:
+                d = {k: v for k, t, v in r['store']}
+                exp = dict(zip(('Is', 'RN', 'Fc', 'La', 'Ti', 'CX', 'CY'), ['@' + fs[0]] + fs[1:]))
+                t = h[1:].split(' ', 1)[1].split(':') if ' ' in h else []
+                exp['aa'] = t[3] if len(t) == 4 else 'N'
+                for k, v in exp.items():
+                    if d.get(k) != v:
+                        what = ('tag %s of the record' % k, d.get(k), v)
+                        break
+            if what is None and 'read' in r and r['read']['name'] != co:
+                what = ('query name', r['read']['name'], co)
+        else:
+            n1 = sum(1 for ch in h if ch in ': ')
+            n2 = sum(1 for ch in h.replace('::', '') if ch in ': ')
+            n3 = h.count(':')
+            if n1 != 10 and n2 != 9 and n3 != 6 and not h.startswith('@Is') and h.count('_') != 4:
+                if not ('error' in r and r.get('stage', 'record') == 'record' and err_class(r['error']) == 'ValueError'):
+                    what = ('malformed header', 'accepted: %r' % (r.get('store') or r.get('error')), 'ValueError')
+        if what:
+            return {'key': 'header:' + what[0].split(' ')[0], 'what': 'raw header %r (index parser %s): %s is %r, expected %r'
+                    % (h, 'given' if c.get('parser') else 'not given', what[0], what[1], what[2]),
+                    'input': c, 'impl': what[1], 'expected': what[2]}
+        return None
 
     def history_violation(self, c, r):
         for j, (call, res) in enumerate(zip(c['calls'], r['calls'])):
@@ -1043,6 +1762,13 @@ class Prop(fw.PropBase):
                     u = None             # the second pass extracts its own UMI
                 oh = c['records'][j][0] if j < len(c['records']) else ''
                 of = re.split('[: ]', oh)
+                co = py_coords_of(oh)
+                if co is not None and not c.get('second'):
+                    # the ORIGINAL Illumina header, any of its shapes: the coordinates come back as tags and as query name
+                    for k7, v7 in zip(('Is', 'RN', 'Fc', 'La', 'Ti', 'CX', 'CY'), co.split(':')):
+                        exp[k7] = v7
+                    if r['reads'][j]['name'] != co:
+                        what = ('query name', r['reads'][j]['name'], co)
                 if oh.startswith('@') and ';' not in oh and len(of) == 11:
                     # the ORIGINAL Illumina header: coordinates and sequencing index come back
                     for k7, v7 in zip(('Is', 'RN', 'Fc', 'La', 'Ti', 'CX', 'CY'), of[:7]):
@@ -1069,7 +1795,7 @@ class Prop(fw.PropBase):
                 if 'aA' in d and 'BC' in d and 'QT' not in d:
                     exp['MI'] = sf(d['BC']) + sf(d.get('RX', '')) + sf(d['aA'])
                 for k, v in exp.items():
-                    if v is not None and tags.get(k) != v:
+                    if what is None and v is not None and tags.get(k) != v:
                         what = ('tag ' + k, tags.get(k), v)
                         break
                 if what is None and all(k in d for k in ('Is', 'RN', 'Fc', 'La', 'Ti', 'CX', 'CY')):
